@@ -2,6 +2,8 @@
 
 package dns
 
+import "strings"
+
 // Exported wrappers over unexported pure helpers, for the verification harness in /verif.
 // This file is only compiled with the "verif" build tag and adds no behaviour.
 
@@ -64,3 +66,29 @@ func VerifGenerate(start, end, step int64, rhs string) ([]byte, string) {
 
 // VerifStringToTTL exposes stringToTTL.
 func VerifStringToTTL(s string) (uint32, bool) { return stringToTTL(s) }
+
+// VerifLexToken is one token of the zone lexer, as zlexer.Next returns it, with the comment
+// that zlexer.Comment reports right after it.
+type VerifLexToken struct {
+	Value   uint8
+	Token   string
+	Torc    uint16
+	Err     bool
+	Line    int
+	Column  int
+	Comment string
+}
+
+// VerifLex runs the zone lexer over text and returns every token up to the end (at most max tokens).
+func VerifLex(text string, max int) []VerifLexToken {
+	zl := newZLexer(strings.NewReader(text))
+	var out []VerifLexToken
+	for len(out) < max {
+		l, ok := zl.Next()
+		if !ok {
+			break
+		}
+		out = append(out, VerifLexToken{l.value, l.token, l.torc, l.err, l.line, l.column, zl.Comment()})
+	}
+	return out
+}
